@@ -208,6 +208,30 @@ func TestC17(t *testing.T) {
 		c.rec.Require("construct_" + hc.name)
 	}
 
+	// <! + case variants of [CDATA[ are bogus comments ending at the first '>' (only the exact spelling opens a CDATA section)
+	var cdv []string
+	for m := 1; m < 32; m++ {
+		b := []byte("[cdata[")
+		for i, j := 0, 0; i < len(b); i++ {
+			if b[i] >= 'a' && b[i] <= 'z' {
+				if m>>j&1 == 1 {
+					b[i] -= 32
+				}
+				j++
+			}
+		}
+		if string(b) != "[CDATA[" {
+			cdv = append(cdv, string(b))
+		}
+	}
+	p = c.rec.NewPart("term_bang_cdata_case_variants", "<! + each of the 30 non-canonical case variants of [CDATA[ + every tail of length 0..4 over {>, ], ]]>, a, <}", false, true, "")
+	bangIdx := 3
+	c.EnumSeq(p, []string{">", "]", "]]>", "a", "<"}, "", 0, 4, func(w *Worker, tail string) {
+		for _, v := range cdv {
+			w.Judge(ev.Case{Kind: "term", N: bangIdx, In: v + tail})
+		}
+	})
+
 	p = c.rec.NewPart("rapid_term_long_bodies", "rapid: construct x body of fragments (up to ~150 bytes) x text prefix", true, false, "")
 	g := gen.HTMLInput()
 	c.Rapid(p, 8, pick(60000, 700000), func(rt *rapid.T, sh int) ev.Case {
